@@ -76,6 +76,7 @@ class Abbrev:
 
     def __init__(self, dom, sp):
         pairs = [(repr(v), k) for k, v in sp.items()] + [(repr(v), k) for k, v in dom.items()]
+        pairs += [(repr(v.dual()), k + "*") for k, v in sp.items()]
         self.pairs = sorted(pairs, key=lambda p: -len(p[0]))
 
     def __call__(self, o):
@@ -222,37 +223,42 @@ def signature_of(o, dom):
 def check_pair(a, b, ab, dom, deep=False):
     """All pair laws on concrete objects a, b.  Returns a list of (key, what)."""
     out = []
+    # observe first: a successful comparison rewrites the operands of its left operand
+    at_a, at_b = attrs(a), attrs(b)
+    same_repr = at_a[0] == at_b[0]
+    kd = pair_key("", a, b, ab)  # ":<innermost differing pair>", also taken before comparing
+    if deep:
+        sa, sb = signature_of(a, dom), signature_of(b, dom)
+        va, vb = value_of(a), value_of(b)
     r1, r2 = EQ(a, b), EQ(b, a)
     if r1 not in (True, False) or r2 not in (True, False):
-        out.append((pair_key("eq-not-bool", a, b, ab), f"== returned {r1!r} / {r2!r}"))
+        out.append(("eq-not-bool" + kd, f"== returned {r1!r} / {r2!r}"))
     if bool(r1) != bool(r2):
-        out.append((pair_key("eq-symmetric", a, b, ab), f"a==b is {r1} but b==a is {r2}"))
+        out.append(("eq-symmetric" + kd, f"a==b is {r1} but b==a is {r2}"))
     n1 = a != b
     if bool(n1) == bool(r1):
-        out.append((pair_key("ne-consistent", a, b, ab), f"a==b is {r1} and a!=b is {n1}"))
+        out.append(("ne-consistent" + kd, f"a==b is {r1} and a!=b is {n1}"))
     if isinstance(a, ufl.Form) and isinstance(b, ufl.Form):
         if bool(a == b) != bool(r1):
-            out.append((pair_key("equation-bool", a, b, ab), f"bool(a==b) is {bool(a == b)} but a.equals(b) is {r1}"))
+            out.append(("equation-bool" + kd, f"bool(a==b) is {bool(a == b)} but a.equals(b) is {r1}"))
     if r1 or r2:
-        for law, x, y in zip(ATTR_LAWS, attrs(a), attrs(b)):
+        for law, x, y in zip(ATTR_LAWS, at_a, at_b):
             if x != y:
                 out.append(
-                    (pair_key("eq-implies-" + law, a, b, ab), f"a==b but {law} differs: {ab(str(x))[:200]} vs {ab(str(y))[:200]}")
+                    ("eq-implies-" + law + kd, f"a==b but {law} differs: {ab(str(x))[:200]} vs {ab(str(y))[:200]}")
                 )
         if deep:
-            sa, sb = signature_of(a, dom), signature_of(b, dom)
             if sa[0] == "ok" and sb[0] == "ok" and sa[1] != sb[1]:
-                out.append((pair_key("eq-implies-signature", a, b, ab), "a==b but the form signatures differ"))
+                out.append(("eq-implies-signature" + kd, "a==b but the form signatures differ"))
             elif (sa[0] == "ok") != (sb[0] == "ok"):
                 out.append(
-                    (pair_key("eq-implies-signature", a, b, ab), f"a==b but signature status differs: {sa[0]} vs {sb[0]}")
+                    ("eq-implies-signature" + kd, f"a==b but signature status differs: {sa[0]} vs {sb[0]}")
                 )
-            va, vb = value_of(a), value_of(b)
             if va[0] == "ok" and vb[0] == "ok" and va[1] != vb[1]:
-                out.append((pair_key("eq-implies-value", a, b, ab), f"a==b but values differ: {va[1]} vs {vb[1]}"))
+                out.append(("eq-implies-value" + kd, f"a==b but values differ: {va[1]} vs {vb[1]}"))
             elif (va[0] == "nonscalar") != (vb[0] == "nonscalar"):
-                out.append((pair_key("eq-implies-value", a, b, ab), "a==b but only one of them is scalar-valued"))
-    elif repr(a) == repr(b):
+                out.append(("eq-implies-value" + kd, "a==b but only one of them is scalar-valued"))
+    elif same_repr:
         ca, cb = culprit_ne(a, b)
         out.append((f"repr-implies-eq:{ab(ca)}|{ab(cb)}", "identical repr but a != b"))
     return out
@@ -348,16 +354,21 @@ def admit(cands, T, memo, seen, run, level, ab):
             run.count("non_expr_result")
             continue
         k = repr(o)
-        prev = seen.get(k)
-        if prev is not None:
-            run.count("same_repr_as_earlier_recipe")
-            if prev is not o:
-                # two recipes, two objects, one repr: the converse law must hold
-                run.validated += 1
-                for key, what in check_pair(prev, o, ab, None):
-                    run.violation(key, what, {"part": "A-dup", "ra": r, "show": U.show(r), "repr": ab(k)[:500]})
+        prevs = seen.setdefault(k, [])
+        if any(p is o for p in prevs):
+            run.count("same_object_as_earlier_recipe")
             continue
-        seen[k] = o
+        dup = False
+        for prev in prevs:
+            # two recipes, two objects, one repr: the converse law must hold; if it does, one recipe is enough
+            run.validated += 1
+            if not check_pair(prev, o, ab, None):
+                dup = True
+            # otherwise both stay in the universe and the all-pairs pass reports the pair (with a replayable witness)
+        if dup:
+            run.count("same_repr_as_earlier_recipe")
+            continue
+        prevs.append(o)
         out.append(r)
         run.count(f"level{level}_states")
     return out
@@ -757,9 +768,16 @@ def part_a(run, recipes, forms, label):
     for x in range(2 * N):
         by_repr.setdefault(A[x][0], []).append(x)
 
-    def confirm(x, y, want_prefix=None, third=None):
+    def fresh_pair(x, y):
+        """The two objects rebuilt from their recipes (comparisons rewrite operands, also in this process)."""
+        tabs = [U.terminals()[:2] + ({},), U.terminals()[:2] + ({},)]
+        ta, tb = tabs[x // N], tabs[y // N]
+        return build_any(recipes[x % N], ta[0], ta[1], ta[2]), build_any(recipes[y % N], tb[0], tb[1], tb[2])
+
+    def confirm(x, y, want_prefix=None, deep=False):
         found = False
-        for key, what in check_pair(X[x], X[y], ab, G["dom"]):
+        a, b = fresh_pair(x, y)
+        for key, what in check_pair(a, b, ab, G["dom"], deep=deep):
             if want_prefix is None or key.startswith(want_prefix):
                 run.violation(key, what, wit(x, y))
                 found = True
@@ -777,13 +795,17 @@ def part_a(run, recipes, forms, label):
                 ntrue += 1
             if x not in Eset[y]:
                 if not confirm(x, y, "eq-symmetric"):
-                    run.violation(pair_key("eq-symmetric", X[x], X[y], ab), "a==b but not b==a (in the all-pairs pass)", wit(x, y))
+                    run.violation(
+                        pair_key("eq-history-dependent", *fresh_pair(x, y), ab),
+                        "a==b but not b==a in the all-pairs pass, while symmetric on fresh objects",
+                        wit(x, y),
+                    )
             if A[x] != A[y]:
                 if not confirm(x, y, "eq-implies"):
-                    # the worker saw X[x] == X[y] after other comparisons of X[x]; on untouched objects they are unequal
+                    # the worker saw X[x] == X[y] after other comparisons of X[x]; not so on freshly built objects
                     run.violation(
-                        pair_key("eq-history-dependent", X[x], X[y], ab),
-                        "a==b was True after a had been compared with the rest of the universe, but is False on fresh objects",
+                        pair_key("eq-history-dependent", *fresh_pair(x, y), ab),
+                        "a==b was True after a had been compared with the rest of the universe, but the laws hold on fresh objects",
                         wit(x, y),
                     )
             if Eset[y] != ex:
@@ -792,13 +814,17 @@ def part_a(run, recipes, forms, label):
                     # z is == one of x, y but not the other, while x == y
                     w = wit(x, y)
                     w.update(part="A-triple", rc=recipes[z % N], copy_c=z // N)
-                    run.violation(triple_key(X[x], X[y], X[z], ab), "x==y, and z is == exactly one of x, y", w)
+                    run.violation(triple_key(A[x][0], A[y][0], A[z][0], ab), "x==y, and z is == exactly one of x, y", w)
                     break
         # converse law
         for y in by_repr[A[x][0]]:
             if y not in ex:
                 if not confirm(x, y, "repr-implies-eq"):
-                    raise RuntimeError("bulk repr-implies-eq difference not reproduced on the pair")
+                    run.violation(
+                        pair_key("eq-history-dependent", *fresh_pair(x, y), ab),
+                        "same repr but != in the all-pairs pass, while == on fresh objects",
+                        wit(x, y),
+                    )
     run.nontrivial += ntrue
     run.count(f"{label}_equal_pairs_of_distinct_objects", ntrue)
     # near pairs: same type, different repr (they differ in some datum) -- must all be unequal
@@ -814,13 +840,14 @@ def part_a(run, recipes, forms, label):
             bad_sig = sig[x] != sig[j]
             bad_val = val[x] != val[j] and "model-error" not in (val[x][0], val[j][0]) and "modelgap" not in (val[x][0], val[j][0])
             if bad_sig or bad_val:
+                a, b = fresh_pair(x, y)
                 hit = False
-                for key, what in check_pair(X[x], X[y], ab, G["dom"], deep=True):
+                for key, what in check_pair(a, b, ab, G["dom"], deep=True):
                     if key.startswith("eq-implies-signature") or key.startswith("eq-implies-value"):
                         run.violation(key, what, wit(x, y))
                         hit = True
-                if not hit:
-                    raise RuntimeError("bulk signature/value difference not reproduced on the pair")
+                if not hit and EQ(a, b) is True:
+                    raise RuntimeError("bulk signature/value difference not reproduced on the pair " + repr(wit(x, y)))
 
     tick(f"{label}: pair laws done")
     run.states += N
@@ -912,8 +939,8 @@ def main(argv):
         fam = collections.Counter(v["key"].split(":")[0] for v in run.violations)
         print("violation families:", dict(fam))
         for v in run.violations:
-            if v["key"].startswith(("eq-history", "eq-transitive", "eq-symmetric")):
-                print("  ", v["key"][:400])
+            if v["key"].startswith(("eq-history", "eq-transitive", "eq-symmetric", "xpickle-repr", "evalrepr", "pickle")):
+                print("  ", v["key"][:300], "<=", str(v["witness"].get("show"))[:300])
     run.rule = (
         "Part A: every recipe of the stated grammar, built twice; == on ALL ordered pairs of the 2N objects; a state is a distinct "
         "repr; non-trivial = a pair of distinct Python objects that compare equal.  Part B: every sequence of comparison events up "
@@ -969,8 +996,6 @@ def replay(run):
             T, dom, _ = U.terminals()
             fresh = build_any(U.tup(w["ra"]), T, dom, {})
             run.violation(pair_key("compare-mutates", fresh, a, ab), "a changed by evaluating a == b", w)
-    elif part == "A-dup":
-        print("see witness: two recipes with one repr;", w.get("show"))
     elif part == "A-obj":
         o = obj(w["r"], 0)
         print("object:", ab(o)[:600])
